@@ -13,7 +13,7 @@ use minidump_writer::maps_reader::MappingInfo;
 
 const SENTINEL: u64 = 0x0defaced0defaced;
 
-const CANDS: [(u64, u64); 8] = [
+const CANDS: [(u64, u64); 9] = [
     (0x5555_5540_0000, 0x1000),    // bucket(2 MiB)-aligned, one page
     (0x5555_557f_f000, 0x1000),    // last page of a bucket
     (0x5555_55bf_f000, 0x2000),    // two pages straddling a bucket boundary
@@ -22,6 +22,7 @@ const CANDS: [(u64, u64); 8] = [
     (0x7fff_f7a0_0000, 0x3000),    // high canonical
     (0x1000, 0x1000),              // lowest mappable page: meets the small-integer range at 4096
     (0x0000_0000_ffff_f000, 0x2000), // straddles 4 GiB exactly
+    (0xffff_ffff_ff60_0000, 0x1000), // the kernel's [vsyscall] page: a mapping in the upper half of the address space
 ];
 const STACK: (u64, u64) = (0x7ffd_1000_0000, 0x2_1000);
 const FOLD_GAP: u64 = 0x2000;
@@ -104,6 +105,9 @@ fn layouts(max_k: usize) -> Vec<Layout> {
             continue;
         }
         let idx: Vec<usize> = (0..n).filter(|i| mask & (1 << i) != 0).collect();
+        if idx.contains(&8) && k > 2 {
+            continue; // the upper-half mapping only in layouts of at most two mappings
+        }
         for xmask in 0u32..(1 << k) {
             let maps: Vec<(u64, u64, bool)> = idx.iter().enumerate().map(|(j, i)| (CANDS[*i].0, CANDS[*i].1, xmask & (1 << j) != 0)).collect();
             for stack in 0..3u8 {
@@ -366,7 +370,7 @@ fn explore_lengths(d: &mut minidump_writer::ptrace_dumper::PtraceDumper, acc: &m
 }
 
 pub fn run(ctx: &Ctx, rep: &mut Report) {
-    rep.rule = "LAT: mapping layouts (subsets of 8 candidate mappings placed around 2 MiB bucket / 4 GiB bitmap-wrap boundaries x executable flags x 3 stack variants x list order {ascending, entry k swapped to the front}) x ordered word sequences (singles over the full per-layout alphabet, pairs, triples over a 12-letter core) x stack-pointer offsets; plus every (sp offset 0..24, length 0..48). nontrivial = calls whose words include both a qualifying and a non-qualifying word, or whose length is shorter than the rounded offset".into();
+    rep.rule = "LAT: mapping layouts (subsets of 9 candidate mappings placed around 2 MiB bucket / 4 GiB bitmap-wrap boundaries, one of them the [vsyscall] page in the upper half of the address space, x executable flags x 3 stack variants x list order {ascending, entry k swapped to the front}) x ordered word sequences (singles over the full per-layout alphabet, pairs, triples over a 12-letter core) x stack-pointer offsets; plus every (sp offset 0..24, length 0..48). nontrivial = calls whose words include both a qualifying and a non-qualifying word, or whose length is shorter than the rounded offset".into();
     rep.assume("words outside the per-layout boundary alphabet are not explored; 64-bit only");
     if let Some(case) = &ctx.replay {
         let t = IdleTarget::spawn();
